@@ -81,6 +81,10 @@ type RunCtx struct {
 	liveG     *hermes.GlobalVarsMain
 	Crashed   bool
 	mu        sync.Mutex
+	// WarmArgs: batch line of another project that is run first in the SAME session (no monitors): what that run leaves in
+	// the session (cached tables, pooled files) may not reach the monitored run
+	WarmArgs []string
+	warming  bool
 }
 
 const maxViolPerSig = 3
@@ -166,6 +170,20 @@ func runScenario(sc *Scenario, monitors []Monitor, keepDir string) *CaseResult {
 		return res
 	}
 	rc := &RunCtx{Sc: sc, Root: root, ResultDir: resultDir, Res: res}
+	if sc.SessionWarmup && len(sc.Fert) > 0 {
+		// the session has already run a sister project: the same inputs under another project name with a fertiliser table of
+		// its own (own parameter folder) in which every fertiliser of the schedule has other contents
+		warm := cloneScenario(sc)
+		warm.SessionWarmup = false
+		warm.Project = sc.Project + "w"
+		rw := NewRng(mix(mix(sc.Seed, uint64(sc.Index)), 1015))
+		for k := 0; k < 4*len(warm.Fert); k++ {
+			warm.redefineFertRow(rw)
+		}
+		if wa, err := warm.Materialize(root, filepath.Join(root, "out_warm")); err == nil && len(warm.OwnFertRows) > len(sc.OwnFertRows) {
+			rc.WarmArgs = wa
+		}
+	}
 	runWithMonitors(rc, root, args, monitors)
 	res.WallMS = time.Since(t0).Milliseconds()
 	return res
@@ -179,6 +197,9 @@ func runWithMonitors(rc *RunCtx, root string, args []string, monitors []Monitor)
 		monitors = append(monitors, d)
 	}
 	hermes.VerifSetSink(func(ev *hermes.VerifEvent) {
+		if rc.warming {
+			return
+		}
 		if ev.Site == "day_begin" {
 			res.Days++
 		}
@@ -215,6 +236,24 @@ func runWithMonitors(rc *RunCtx, root string, args []string, monitors []Monitor)
 			rc.mu.Unlock()
 		}
 	}()
+	if len(rc.WarmArgs) > 0 {
+		rc.warming = true
+		func() {
+			defer func() { recover() }()
+			wout := make(chan *hermes.RunReturn, 1)
+			wlog := make(chan string, 64)
+			done := make(chan struct{})
+			go func() {
+				for range wlog {
+				}
+				close(done)
+			}()
+			defer func() { close(wlog); <-done }()
+			session.Run(root, rc.WarmArgs, "[w]", wout, wlog)
+		}()
+		rc.warming = false
+		rc.Cov("runs_in_a_session_that_ran_a_sister_project_first", 1)
+	}
 	func() {
 		defer func() {
 			if r := recover(); r != nil {
